@@ -19,7 +19,7 @@ def run(tier, seed):
                 'python lists built by act() are tracked as (membership, contains-None, non-empty) triples',
                 'System.connectivity (Goderya closure over kvxopt sparse products) is NOT proved: bounded stand-in only')
     items = [(G.conn_init('C12'), None, G.replay_conn_init), (G.update('C12'),), (G.record('C12'), G.WIT_F12, G.replay_record), (G.act('C12'), G.WIT_F13, G.replay_act),
-             (G.g_islands('C12'), None, G.replay_g_islands)]
+             (G.g_islands('C12'), None, G.replay_g_islands), (G.summary('C12'), None, G.replay_summary)]
     from contracts import fn_tds
     items.append((fn_tds.do_switch('C12'), None, fn_tds.replay_do_switch))
     # the matrix side of islanding: diagonal patch of gy for islanded buses in both accumulation modes (contracts shared with C03 / C16)
